@@ -493,6 +493,30 @@ def c08_canon(R):
             f"variable shared between two canonicalize() calls that thread the same map gets two different names",
             construct=f"var_map[{key}] store in {ast.unparse(st.value).split('(')[0]} arm",
         )
+    # a renaming changes the name only: what the map stores for a symbol carries the symbol's annotations
+    for st in stores:
+        keyvar = next((x.id for x in ast.walk(st.targets[0].slice) if isinstance(x, ast.Name) and x.id != "var_map"), None)
+        carries = keyvar is not None and any(isinstance(x, ast.Attribute) and x.attr == "annotations" and isinstance(x.value, ast.Name) and x.value.id == keyvar for x in ast.walk(st.value))
+        R.check(
+            carries,
+            m,
+            st,
+            "the canonical symbol keeps the annotations of the symbol it replaces",
+            f"canonicalize stores `{norm(st.value)[:70]}` for a symbol without its annotations: an interval-annotated variable "
+            f"SI[10, 20] becomes an unconstrained one for the VSA backend ([10, 20] -> TOP)",
+            construct="canonicalize: annotations of the renamed symbol dropped",
+        )
+    # a map handed in without its counter does not restart the names
+    starts = [c for c in walk_no_nested(fn) if isinstance(c, ast.Call) and (dotted(c.func) or "").endswith("count") and c.args]
+    R.check(
+        bool(starts) and all("var_map" in ast.unparse(c.args[0]) or "0" not in ast.unparse(c.args[0]).split(" if ")[0] for c in starts),
+        m,
+        fn,
+        "the name counter continues after the names the map has used",
+        "canonicalize restarts its names at canonical_0 when a map is handed in without its counter: two variables get the same "
+        "name ((u - v).canonicalize(var_map=<map of u>) is canonical_0 - canonical_0)",
+        construct="canonicalize: counter restarts with a given map",
+    )
     rets = [r for r in walk_no_nested(fn) if isinstance(r, ast.Return)]
     good = [r for r in rets if isinstance(r.value, ast.Tuple) and len(r.value.elts) == 3 and ast.unparse(r.value.elts[0]) == "var_map" and ast.unparse(r.value.elts[2]).endswith("replace_dict(self, var_map)")]
     R.check(
